@@ -118,6 +118,38 @@ def _projection_orders(rep):
                     break
 
 
+def _detached_target_orders(rep):
+    """The targeted ship sits on a fit that enters the solar system in any position of the set-up order: the
+    item-filter modifier is K1 when the ship loads after the application, the location-filter modifier is registered
+    for the not yet loaded target and must reach the rig aboard it in every order."""
+    from eos import Fit, ModuleHigh, Ship, SolarSystem, State, Rig
+    ch, a, modt, shipt, rigt = _proj_universe()
+    for order in itertools.permutations(['enter', 'module', 'activate', 'target']):
+        ss = SolarSystem(source=mem.source(ch))
+        f, g = Fit(solar_system=ss), Fit(solar_system=None)
+        m, s, r = ModuleHigh(modt), Ship(shipt), Rig(rigt)
+        g.ship = s
+        g.rigs.add(r)
+        for st in order:
+            if st == 'enter':
+                ss.fits.add(g)
+            elif st == 'module':
+                f.modules.high.append(m)
+            elif st == 'activate':
+                m.state = State.active
+            else:
+                m.target = s
+        got = (s.attrs[a], r.attrs[a])
+        k1 = order.index('target') < order.index('enter')
+        rep.case(sig=('detached-order', order), kind='order-detached-target' + ('-K1' if k1 else ''))
+        if not C.close(got[1], 17):
+            rep.violate('set-up order %s: the rig aboard the target sees %r instead of 17 (location filter)'
+                        % ('>'.join(order), got[1]), {'scenario': 'detached-target', 'order': list(order)})
+        elif not C.close(got[0], 110.00000000000001):
+            rep.violate('set-up order %s: the target sees %r instead of 110' % ('>'.join(order), got[0]),
+                        {'scenario': 'detached-target', 'order': list(order)}, cls='K1' if k1 else None)
+
+
 def _fleet_universe():
     from eos.const.eos import ModAffecteeFilter, ModAggregateMode, ModOperator
     from eos.const.eve import AttrId, EffectCategoryId, EffectId
@@ -229,6 +261,7 @@ def correspondence(ctx):
 
 def oracle(ctx):
     _projection_orders(ctx.report)
+    _detached_target_orders(ctx.report)
     _fleet_orders(ctx.report)
     ctx.report.exhaustive = None
 
